@@ -15,7 +15,8 @@
      only if the earlier coordinates were restored exactly);
    * in jacobian_affine the map x -> Mx + c is the textbook sum [aff] over the entries
      M[i,k] = [ment M i k] (Appendix E conventions), the conclusion is equality of records.
-   Not proved: the O(delta) truncation bound for smooth maps and float rounding (tie + search). *)
+   The truncation bound (block newton2) and the float halves -- exactness on dyadic data, restoration drift, rounding
+   floor, total error (block jacexact, end of file) -- are proved further down. *)
 From Coq Require Import List Arith ZArith QArith Qcanon.
 From OV Require Import Base.Panic Base.Arith Model.Vector Model.Matrix Model.Newton
   Proofs.Matrix Proofs.Newton Proofs.NewtonJac Inst.QcInst Legacy.C18Refuted.
